@@ -52,7 +52,8 @@ def systematic_bases() -> list:
                     "out_state": "absent" if mode == "file" else "n/a", "prog": prog, "variant": variant, "special": None,
                     "fs": {"files": files, "dirs": [], "ro": [], "unreadable": []},
                     "roles": {"in.py": "IN", "out.txt": "OUT"} if mode == "file" else {"in.py": "IN"},
-                    "knobs": {"buffer_size": 8192, "stdout_buffer": 8192, "stdout_line_buffered": False, "locale": "utf-8"},
+                    "knobs": {"buffer_size": 8192, "stdout_buffer": 8192, "stdout_line_buffered": False, "locale": "utf-8",
+                              "stdout_encoding": "utf-8"},
                     "plan": [],
                 })
     return out
@@ -87,7 +88,8 @@ def run_real(repo: str, desc: dict, strace: dict | None = None) -> dict:
             with open(full, "wb") as f:
                 f.write(bytes.fromhex(h))
         env = {"PATH": os.environ.get("PATH", "/usr/bin:/bin"), "PYTHONPATH": os.path.realpath(repo), "PYTHONHASHSEED": "0",
-               "PYTHONDONTWRITEBYTECODE": "1", "LC_ALL": "C.UTF-8", "HOME": root}
+               "PYTHONDONTWRITEBYTECODE": "1", "LC_ALL": "C.UTF-8", "HOME": root,
+               "PYTHONIOENCODING": desc["knobs"].get("stdout_encoding", "utf-8") + ":strict"}
         cmd = [PY312, "-m", "oneliner"] + list(desc["argv"])
         if strace:
             target = os.path.join(root, strace["path"])
@@ -113,9 +115,9 @@ def run_real(repo: str, desc: dict, strace: dict | None = None) -> dict:
         shutil.rmtree(root, ignore_errors=True)
 
 
-def _norm_bytes(b: bytes):
+def _norm_bytes(b: bytes, enc: str = "utf-8"):
     try:
-        return normalise(b.decode("utf-8"))
+        return normalise(b.decode(enc))
     except UnicodeDecodeError:
         return b.hex()
 
@@ -125,7 +127,8 @@ def compare_real(desc: dict, sim: dict, real: dict) -> list:
     diffs = []
     if sim["status"] != real["status"]:
         diffs.append("status sim=%s real=%s" % (sim["status"], real["status"]))
-    if _norm_bytes(bytes.fromhex(sim["stdout"])) != _norm_bytes(real["stdout"]):
+    senc = desc["knobs"].get("stdout_encoding", "utf-8")
+    if _norm_bytes(bytes.fromhex(sim["stdout"]), senc) != _norm_bytes(real["stdout"], senc):
         diffs.append("stdout differs")
     sim_files = {os.path.relpath(p, CWD): bytes.fromhex(h) for p, h in sim["final"]["files"].items()}
     if sorted(sim_files) != sorted(real["files"]):
@@ -189,7 +192,8 @@ class Shrinker:
         items = ddmin(items, lambda its: self.fails(with_items(its)), max_tests=80)
         desc = with_items(items)
         # 3. knobs to defaults
-        for k, v in (("buffer_size", 8192), ("stdout_buffer", 8192), ("stdout_line_buffered", False), ("locale", "utf-8")):
+        for k, v in (("buffer_size", 8192), ("stdout_buffer", 8192), ("stdout_line_buffered", False), ("locale", "utf-8"),
+                     ("stdout_encoding", "utf-8")):
             if desc["knobs"].get(k) != v:
                 d = dict(desc, knobs=dict(desc["knobs"], **{k: v}))
                 if self.fails(d):
